@@ -42,7 +42,8 @@ ASSUMPTIONS = ["values contain neither SOH nor NUL and are shorter than 2048 byt
 RULE = ("valid messages generated from the dumped metadata (every message type; mandatory fields plus a random optional subset; groups "
         "with 0..3 elements nested to the schema's depth; part fields in schema order or shuffled), each with 0..2 mutations drawn from: "
         "unknown tag inserted (anywhere / at the end of a part / inside a group element), tag raised by a multiple of 65536, wrong "
-        "checksum, wrong or zero-padded BodyLength, duplicate of a part-level token, duplicate of 8/9/35/10, token moved to another part "
+        "checksum, CheckSum text variants (sum + 256 / 512 / 768, i.e. equal only modulo 256; four bytes 0ddd; unpadded; signed; "
+        "sum + 1000; three bytes with a non-digit that fast_atoi reads as the sum), wrong or zero-padded BodyLength, duplicate of a part-level token, duplicate of 8/9/35/10, token moved to another part "
         "or into / out of a group, mandatory token deleted, random token deleted, first token of a group element deleted or swapped, "
         "int text variants (+5 1e3 007 -0 -7), BeginString changed, zero-padded tag, token without '=' / with empty tag, part fields "
         "reshuffled, count changed, last token dropped, unknown MsgType.  non-trivial = the decoder got past the preamble (result is an "
@@ -113,14 +114,15 @@ class Tok:
         return self.raw if self.raw is not None else self.tagtext + b"=" + self.val + SOH
 
 
-def wire(toks, begin, mtype, bodylen=None, chk=None, last=True):
+def wire(toks, begin, mtype, bodylen=None, chk=None, last=True, chktext=None):
     body = b"35=" + mtype + SOH + b"".join(t.bytes() for t in toks)
     bl = str(len(body)).encode() if bodylen is None else bodylen
     s = b"8=" + begin + SOH + b"9=" + bl + SOH + body
     ck = sum(s) % 256
     if chk is not None:
         ck = (ck + chk) % 256
-    return s + (b"10=%03d" % ck + SOH if last else b"")
+    text = b"%03d" % ck if chktext is None else chktext(ck)
+    return s + (b"10=" + text + SOH if last else b"")
 
 
 def order_units(meta, owner, fs, rng, shuffle):
@@ -190,10 +192,10 @@ class Msg:
         self.toks = (flatten(meta, "header", "H", hdr, rng, sh) + flatten(meta, mt, "B", body, rng, sh)
                      + flatten(meta, "trailer", "T", trl, rng, sh))
         self.mt = mt
-        self.begin, self.bodylen, self.chk, self.last = meta.begin, None, None, True
+        self.begin, self.bodylen, self.chk, self.last, self.chktext = meta.begin, None, None, True, None
 
     def bytes(self):
-        return wire(self.toks, self.begin, self.mtype, self.bodylen, self.chk, self.last)
+        return wire(self.toks, self.begin, self.mtype, self.bodylen, self.chk, self.last, self.chktext)
 
     # index ranges of the parts in self.toks
     def part_range(self, p):
@@ -259,6 +261,39 @@ def m_bigtag(m, rng):
 def m_badck(m, rng):
     m.chk = rng.randrange(1, 256)
     return "bad-checksum"
+
+
+def same_as_read(ck):
+    """Three bytes, not all digits, that fast_atoi<unsigned> reads as ck: one ten moved into the last character
+    (185 -> '17?'), or one hundred into the middle one (105 -> '0:5')."""
+    a, b, c = ck // 100, ck // 10 % 10, ck % 10
+    if b >= 1:
+        return bytes((48 + a, 48 + b - 1, 48 + c + 10))
+    if a >= 1:
+        return bytes((48 + a - 1, 48 + 10, 48 + c))
+    return b"%03d" % ck
+
+
+def m_chktext(m, rng):
+    """The TEXT of CheckSum: the trailer must be exactly 10=ddd with ddd the byte sum mod 256 in three digits.
+    Half of the cases aim at the comparison itself: texts that equal the sum only modulo 256."""
+    mode = rng.randrange(12)
+    if mode < 6:
+        k = rng.choice((256, 512, 768))
+        m.chktext = lambda ck, k=k: b"%03d" % (ck + k if ck + k <= 999 else ck + 256)
+    elif mode == 6:
+        m.chktext = lambda ck: b"0%03d" % ck                    # 0185: four bytes
+    elif mode == 7:
+        m.chktext = lambda ck: b"%d" % ck                       # 85 instead of 085 (three bytes from 100 on)
+    elif mode == 8:
+        m.chktext = lambda ck: (b"+%02d" % ck) if ck < 100 else (b"+%d" % ck)
+    elif mode == 9:
+        m.chktext = lambda ck: b"%d" % (ck + 1000)              # four digits
+    elif mode == 10:
+        m.chktext = same_as_read                                # not digits, same value as read
+    else:
+        m.chktext = lambda ck: rng.choice((b"%03d " % ck, b" %02d" % (ck % 100), b"%03d" % ((ck + 100) % 1000), b""))
+    return "checksum-text"
 
 
 def m_badbl(m, rng):
@@ -464,7 +499,7 @@ def m_msgtype(m, rng):
     return "msgtype"
 
 
-MUTATIONS = [(m_unknown, 12), (m_bigtag, 8), (m_badck, 4), (m_badbl, 4), (m_dup, 8), (m_dup_auto, 4), (m_misplace, 12),
+MUTATIONS = [(m_unknown, 12), (m_bigtag, 8), (m_badck, 4), (m_chktext, 5), (m_badbl, 4), (m_dup, 8), (m_dup_auto, 4), (m_misplace, 12),
              (m_drop_mand, 7), (m_drop_any, 4), (m_nofirst, 7), (m_numeric, 8), (m_begin, 2), (m_lead0, 3),
              (m_malformed, 3), (m_reorder, 5), (m_count, 4), (m_truncate, 1), (m_msgtype, 2)]
 
@@ -761,7 +796,16 @@ def c_malformed(case, r, m):
     return r.startswith("OK ") and a.toks is None
 
 
-CLASSIFIERS = {"unknown-tag": c_unknown_tag, "big-tag": c_big_tag, "foreign-tag": c_foreign_tag, "auto-dup": c_auto_dup,
+def c_checksum_text(case, r, m):
+    """the three CheckSum bytes are not all digits but fast_atoi<unsigned> reads them as the byte sum (185 as '17?')."""
+    a = _an(case)
+    if not r.startswith("OK ") or a.toks is None or not a.toks or a.toks[-1][0] != 10:
+        return False
+    v = a.toks[-1][2]
+    return len(v) == 3 and not (v.isdigit() and v.isascii())
+
+
+CLASSIFIERS = {"checksum-text": c_checksum_text, "unknown-tag": c_unknown_tag, "big-tag": c_big_tag, "foreign-tag": c_foreign_tag, "auto-dup": c_auto_dup,
                "length-field": c_length_field, "begin-string": c_begin_string, "int-text": c_int_text,
                "malformed-token": c_malformed}
 
